@@ -235,6 +235,45 @@ def resolve_deep(fn: ast.FunctionDef, expr: ast.AST | str, depth: int = 6) -> as
     return out
 
 
+def reaching_value(fn: ast.FunctionDef, use: ast.AST) -> Optional[ast.AST]:
+    """The value of the one plain assignment `name = VALUE` that reaches the name node `use`: the closest preceding
+    statement of an enclosing block that binds the name.  None when that statement is compound (the binding is conditional),
+    when nothing binds the name before the use, or when the use sits in a loop that rebinds the name."""
+    name = use.id
+    path: list[tuple[list, int]] = []
+
+    def find(block: list) -> bool:
+        for i, st in enumerate(block):
+            if any(x is use for x in ast.walk(st)):
+                path.append((block, i))
+                for f in ("body", "orelse", "finalbody"):
+                    sub = getattr(st, f, None)
+                    if isinstance(sub, list) and find(sub):
+                        return True
+                for h in getattr(st, "handlers", []) or []:
+                    if find(h.body):
+                        return True
+                return True
+        return False
+
+    if not find(fn.body):
+        return None
+    for block, i in reversed(path):
+        st = block[i]
+        if isinstance(st, (ast.For, ast.While, ast.AsyncFor)) and any(
+                isinstance(x, ast.Name) and x.id == name and isinstance(x.ctx, ast.Store) for x in ast.walk(st)):
+            return None
+        for prev in reversed(block[:i]):
+            binds = [x for x in ast.walk(prev) if isinstance(x, ast.Name) and x.id == name and isinstance(x.ctx, (ast.Store, ast.Del))]
+            if not binds:
+                continue
+            if isinstance(prev, ast.Assign) and len(prev.targets) == 1 and isinstance(prev.targets[0], ast.Name) \
+                    and prev.targets[0].id == name:
+                return prev.value
+            return None
+    return None
+
+
 def deep_text(fn: ast.FunctionDef, expr: ast.AST | str) -> str:
     return ast.unparse(resolve_deep(fn, expr))
 
